@@ -23,6 +23,8 @@ pub enum KeyEnc {
     None,
     Hex,
     B64,
+    HexUpper,
+    HexMixed,
 }
 
 #[derive(Clone, Copy, Debug, PartialEq)]
@@ -82,6 +84,14 @@ pub fn run_client(ctx: &Ctx, proto: Proto, key: Option<(&[u8], KeyEnc)>, mode: M
         Some((pk, KeyEnc::B64)) => {
             args.push("-k".into());
             args.push(b64(pk));
+        }
+        Some((pk, KeyEnc::HexUpper)) => {
+            args.push("-k".into());
+            args.push(hex(pk).to_uppercase());
+        }
+        Some((pk, KeyEnc::HexMixed)) => {
+            args.push("-k".into());
+            args.push(hex(pk).chars().enumerate().map(|(i, c)| if i % 3 == 0 { c.to_ascii_uppercase() } else { c }).collect());
         }
         _ => {}
     }
@@ -227,9 +237,12 @@ pub enum Forgery {
     RandomBitFlip,
     RandomByte,
     FrameLengthOff,
+    RootShortenedResigned,
+    WindowEmptyResigned,
+    WindowEdgeMissResigned,
 }
 
-pub const ALL_FORGERIES: [Forgery; 28] = [
+pub const ALL_FORGERIES: [Forgery; 31] = [
     Forgery::SigFlip,
     Forgery::PathFlip,
     Forgery::PathAppend,
@@ -258,6 +271,9 @@ pub const ALL_FORGERIES: [Forgery; 28] = [
     Forgery::RandomBitFlip,
     Forgery::RandomByte,
     Forgery::FrameLengthOff,
+    Forgery::RootShortenedResigned,
+    Forgery::WindowEmptyResigned,
+    Forgery::WindowEdgeMissResigned,
 ];
 
 fn flip(v: &mut Vec<u8>, rng: &mut Rng) -> usize {
@@ -470,6 +486,35 @@ impl<'a> Forger<'a> {
                 d[i] = d[i].wrapping_add(1 + rng.below(255) as u8);
                 (d, format!("byte {} changed", i))
             }
+            Forgery::RootShortenedResigned => {
+                // a key-holding but malicious server: ROOT is a prefix of the true root (or empty),
+                // everything correctly signed
+                let root = parts.srep.get(ROOT).unwrap().to_vec();
+                let keep = *rng.pick(&[0usize, 4, 16, 28, w / 2]);
+                parts.srep.set(ROOT, &root[..keep.min(root.len().saturating_sub(4))]);
+                parts.resign_srep(&online);
+                (parts.assemble(), format!("ROOT shortened to {} bytes, SREP correctly re-signed", keep))
+            }
+            Forgery::WindowEmptyResigned => {
+                // MINT > MAXT: an empty delegation window, correctly signed
+                let (mint, maxt) = (b.midp.saturating_sub(rng.range(1, 1_000_000)), b.midp.saturating_sub(rng.range(2_000_000, 4_000_000)));
+                let (mint, maxt) = if rng.chance(1, 2) { (mint, maxt) } else { (b.midp + 3_600, b.midp.saturating_sub(3_600)) };
+                if mint <= maxt {
+                    return None;
+                }
+                parts.dele.set(MINT, &mint.to_le_bytes());
+                parts.dele.set(MAXT, &maxt.to_le_bytes());
+                parts.resign_dele(&self.srv.lt(), p);
+                (parts.assemble(), format!("empty delegation window MINT {} > MAXT {} (MIDP {}), correctly signed", mint, maxt, b.midp))
+            }
+            Forgery::WindowEdgeMissResigned => {
+                // the midpoint misses the window by exactly one unit, on either side
+                let (mint, maxt) = if rng.chance(1, 2) { (b.midp + 1, u64::MAX) } else { (0, b.midp - 1) };
+                parts.dele.set(MINT, &mint.to_le_bytes());
+                parts.dele.set(MAXT, &maxt.to_le_bytes());
+                parts.resign_dele(&self.srv.lt(), p);
+                (parts.assemble(), format!("MIDP {} one unit outside the correctly signed window [{}, {}]", b.midp, mint, maxt))
+            }
             Forgery::FrameLengthOff => {
                 if p != Proto::Ietf {
                     return None;
@@ -521,7 +566,7 @@ pub fn run_c01(ctx: &Ctx, out: &mut Out) {
         let gi = t * ctx.nshards + ctx.shard;
         let proto = if gi % 2 == 0 { Proto::Classic } else { Proto::Ietf };
         let pi = (proto == Proto::Ietf) as usize;
-        let enc = if (gi / 2) % 2 == 0 { KeyEnc::Hex } else { KeyEnc::B64 };
+        let enc = [KeyEnc::Hex, KeyEnc::B64, KeyEnc::HexUpper, KeyEnc::B64, KeyEnc::HexMixed][((gi / 2) % 5) as usize];
         let mode = match (gi / 4) % 3 {
             0 => Mode::Plain,
             1 => Mode::Json,
@@ -717,10 +762,12 @@ pub fn run_c03(ctx: &Ctx, out: &mut Out) {
     for t in 0..ntrials {
         let gi = t * ctx.nshards + ctx.shard;
         let proto = if gi % 2 == 0 { Proto::Classic } else { Proto::Ietf };
-        let enc = match (gi / 2) % 3 {
+        let enc = match (gi / 2) % 5 {
             0 => KeyEnc::None,
             1 => KeyEnc::Hex,
-            _ => KeyEnc::B64,
+            2 => KeyEnc::B64,
+            3 => KeyEnc::HexUpper,
+            _ => KeyEnc::HexMixed,
         };
         let mode = match (gi / 6) % 3 {
             0 => Mode::Plain,
@@ -897,7 +944,7 @@ fn real_server_part(ctx: &Ctx, out: &mut Out, rng: &mut Rng) {
             continue;
         };
         for proto in [Proto::Classic, Proto::Ietf] {
-            for (enc, n) in [(KeyEnc::Hex, 64usize), (KeyEnc::None, 7), (KeyEnc::B64, rng.range(1, 64) as usize)] {
+            for (enc, n) in [(KeyEnc::Hex, 64usize), (KeyEnc::None, 7), (KeyEnc::B64, rng.range(1, 64) as usize), (KeyEnc::HexUpper, 3)] {
                 let mut args: Vec<String> = vec!["127.0.0.1".into(), sp.cfg.port.to_string(), "-p".into(), if proto == Proto::Classic { "0".into() } else { "13".into() }, "-z".into(), "-t".into(), "4".into(), "-n".into(), n.to_string(), "-f".into(), "T=%s.%f".into(), "-j".into()];
                 match enc {
                     KeyEnc::Hex => {
@@ -907,6 +954,10 @@ fn real_server_part(ctx: &Ctx, out: &mut Out, rng: &mut Rng) {
                     KeyEnc::B64 => {
                         args.push("-k".into());
                         args.push(b64(&pk));
+                    }
+                    KeyEnc::HexUpper | KeyEnc::HexMixed => {
+                        args.push("-k".into());
+                        args.push(hex(&pk).to_uppercase());
                     }
                     KeyEnc::None => {}
                 }
